@@ -52,7 +52,8 @@ def main():
             "level_note": note,
             "technique": tech,
         })
-    json.dump(man, open("/verif/MANIFEST.json", "w"), indent=1)
+    import os
+    json.dump(man, open(os.path.join(os.environ.get("VERIF_ROOT", "/verif"), "MANIFEST.json"), "w"), indent=1)
     print("wrote MANIFEST.json with", len(man["checks"]), "checks,", len(man["not_applicable"]), "not applicable")
 
 
